@@ -176,3 +176,23 @@ B('pkgL_b_pages_only_for_get', ['C20'], 'R20.b',
 T('pkgL_t_sort_guard_spelled_out', ['C20'],
   (FL, "    if monitored_files:\n        monitored_files.sort(key=lambda x: len(x))\n",
        "    if monitored_files is not None and len(monitored_files) > 1:\n        monitored_files.sort(key=len)\n"))
+B('pkgL_b_nested_function_rebinds_file_list', ['C20'], 'R20.e',
+  (SV, "                    to_mon[:] = literal_eval(line_text[len(_MON_PREFIX):])", "                    to_mon = literal_eval(line_text[len(_MON_PREFIX):])"))
+B('pkgL_b_create_app_arguments_swapped', ['C20'], 'R20.e',
+  (SV, "        err_app = flaw.create_app(tb_str, monitored_files)", "        err_app = flaw.create_app(monitored_files, tb_str)"))
+B('pkgL_b_failsafe_without_file_list', ['C20'], 'R20.e',
+  (SV, "        err_app = flaw.create_app(tb_str, monitored_files)", "        err_app = flaw.create_app(tb_str)"))
+T('pkgL_t_stderr_pump_hoisted_partial', ['C20'],
+  (SV, "from itertools import chain\n", "from itertools import chain\nfrom functools import partial\n"),
+  (SV, "        def consume_lines():\n            for line in iter(child_proc.stderr.readline, ''):\n                if not line:\n                    break\n"
+       "                line_text = line.decode('utf8')\n                if line_text.startswith(_MON_PREFIX):\n"
+       "                    to_mon[:] = literal_eval(line_text[len(_MON_PREFIX):])\n                else:\n"
+       "                    sys.stderr.write(line_text)\n                    stderr_buff.append(line_text)\n",
+       "        consume_lines = partial(_pump_stderr, child_proc, to_mon, stderr_buff)\n"),
+  (SV, "def restart_with_reloader(error_func=None):\n", "def _pump_stderr(proc, mon_files, buff):\n    for line in iter(proc.stderr.readline, ''):\n        if not line:\n            break\n"
+       "        line_text = line.decode('utf8')\n        if not line_text.startswith(_MON_PREFIX):\n            sys.stderr.write(line_text)\n"
+       "            buff.append(line_text)\n            continue\n        mon_files[:] = literal_eval(line_text[len(_MON_PREFIX):])\n\n\n"
+       "def restart_with_reloader(error_func=None):\n"))
+T('pkgL_t_error_app_builder_keywords', ['C20'],
+  (SV, "        from clastic import flaw\n        err_app = flaw.create_app(tb_str, monitored_files)\n        err_server = make_server(hostname, port, err_app)\n",
+       "        from clastic.flaw import create_app\n        err_server = make_server(hostname, port, create_app(monitored_files=monitored_files, traceback_string=tb_str))\n"))
